@@ -64,12 +64,23 @@ MODELLED = [
     ("apply_args_to_closure", "prqlc/prqlc/src/semantic/resolver/functions.rs", r"pub\s+fn\s+apply_args_to_closure\s*\("),
     ("unpack", "prqlc/prqlc/src/semantic/resolver/transforms.rs", r"fn\s+unpack<const\s+P:\s*usize>\s*\("),
     ("desugar_pipeline", "prqlc/prqlc/src/semantic/ast_expand.rs", r"fn\s+desugar_pipeline\s*\("),
+    # the layout protocol of the formatter (Model/FmtLayout.v)
+    ("expr_write", "prqlc/prqlc/src/codegen/ast.rs", r"impl\s+WriteSource\s+for\s+pr::Expr\s*\{"),
+    ("needs_parenthesis", "prqlc/prqlc/src/codegen/ast.rs", r"fn\s+needs_parenthesis\s*\("),
+    ("write_within", "prqlc/prqlc/src/codegen/ast.rs", r"fn\s+write_within<T:\s*WriteSource>\s*\("),
+    ("break_line_within_parenthesis", "prqlc/prqlc/src/codegen/ast.rs", r"fn\s+break_line_within_parenthesis<T:\s*WriteSource>\s*\("),
+    ("write_between", "prqlc/prqlc/src/codegen/mod.rs", r"fn\s+write_between<S:\s*ToString>\s*\("),
+    ("separated_exprs_write", "prqlc/prqlc/src/codegen/mod.rs", r"impl<T:\s*WriteSource>\s+WriteSource\s+for\s+SeparatedExprs<'_,\s*T>"),
+    ("write_inline", "prqlc/prqlc/src/codegen/mod.rs", r"fn\s+write_inline\s*\("),
+    ("stmts_write", "prqlc/prqlc/src/codegen/ast.rs", r"impl\s+WriteSource\s+for\s+Vec<pr::Stmt>"),
 ]
+# pinned functions whose `+=` / `+` build Strings, not integers: not counted under `arith`
+TEXT_BUILDING = {"expr_write", "break_line_within_parenthesis", "separated_exprs_write", "write_between", "stmts_write", "needs_parenthesis", "write_within"}
 # statement-level excerpts (anchored regex over whitespace-normalised, comment-free source; group 1 is pinned;
 # the last field says whether string literal contents are kept (True) or blanked (False) in the text searched)
 EXCERPTS = [
     ("limit_offset", "prqlc/prqlc/src/sql/gen_query.rs",
-     r"(let take = range_of_ranges\(ranges\)\?; let too_large = [^;]*; let offset = match take\.start \{[^{}]*\}; let limit = match take\.end \{[^{}]*\};)", False),
+     r"(let take = range_of_ranges\(ranges\)\.with_span_fallback\(take_span\)\?; let too_large = [^;]*; let offset = match take\.start \{[^{}]*\}; let limit = match take\.end \{[^{}]*\};)", False),
     ("interp_rebase", "prqlc/prqlc-parser/src/parser/interpolation.rs",
      r"(let span = Span \{ start: .*?, end: .*?, source_id: span_base\.source_id, \};)", False),
     ("static_eval_neg", "prqlc/prqlc/src/semantic/resolver/static_eval.rs",
@@ -340,7 +351,8 @@ def extract():
         mm = re.search(pat, m2)
         i0 = mm.start()
         modelled.append((name, norm(comment_free(s2[i0:i0 + len(text)], m2[i0:i0 + len(text)]))))
-        arith[rel] = arith.get(rel, 0) + arith_count(body_m)
+        if name not in TEXT_BUILDING:
+            arith[rel] = arith.get(rel, 0) + arith_count(body_m)
     for name, rel, pat, keep_strings in EXCERPTS:
         if rel not in texts:
             raise ExtractError("excerpt %s: file %s missing" % (name, rel))
@@ -437,7 +449,7 @@ def write_baseline():
     print("baseline written: %d (file, kind) rows, totals %s" % (len(info["sites"]), info["total"]))
 
 
-REVIEW_NOTE = """(* REVIEW LOG of the last re-recording (/repo at 696874e; the commits after d060422 -- fdf832c same_tokens guard in sql/mod.rs (a call into sqlparser's tokenizer, `.ok()`, no unwrap / index), 0301a92, f30b660, 79abe54, 696874e -- add no site).  Rows that grew since the
+REVIEW_NOTE = """(* REVIEW LOG of the last re-recording (/repo at d86674e, frozen; the commits after 696874e -- 19e2c2a ae779df 3318626 2f7a440 819c36b d86674e -- change no (file, kind) count; the commits after d060422 -- fdf832c same_tokens guard in sql/mod.rs (a call into sqlparser's tokenizer, `.ok()`, no unwrap / index), 0301a92, f30b660, 79abe54, 696874e -- add no site).  Rows that grew since the
    baseline of b55902d, every added site read in its context; each is restated with its guard in Model/ReviewedSites.v
    and proved unreachable in Proofs/ReviewedSitesProofs.v (theorems c12_reviewed_* of Props/C12.v), its text pinned in
    `modelled_expected`:
